@@ -167,14 +167,14 @@ Theorem C19_D17_reaped_behind_cut_witness :
 Proof. vm_compute. repeat split; discriminate. Qed.
 Print Assumptions C19_D17_reaped_behind_cut_witness.
 
-(** Audit 2, N1 (finding candidate, prototype docs/patches/bottom-region-taller-than-terminal.diff;
-    harness class 'bottom-region-taller-than-terminal-scrolls', reproduced on the real code): under
-    Bottom alignment last_line_count can EXCEED the terminal height and then every draw scrolls the
-    terminal by one row.  5x3 terminal, Bottom; a, b, c drawn, finished visibly and dropped (three kept
-    rows); d added and drawn; clear(); d.tick(); clear(); d.tick(): clear() adds the 3 kept rows to the
-    count (LineAdjust::Clear): 1 + 3 = 4 > 3, and the count stays 4; the first visible row of the
-    terminal moves down by one with every call although only blank rows and `d0` are written.  This
-    REFUTES "last_line_count <= H after every op" for Bottom alignment on the current tree. *)
+(** Regression statement for the defect fixed by 7d42cff "the redrawn region is never taller than the
+    terminal" (audit 2, N1; harness class 'bottom-region-taller-than-terminal-scrolls'): 5x3 terminal,
+    Bottom alignment; a, b, c drawn, finished visibly and dropped (three kept rows); d added and drawn;
+    clear(); d.tick(); clear(); d.tick().  BEFORE the fix clear() added the 3 kept rows to the count
+    (LineAdjust::Clear): 1 + 3 = 4 > H = 3, the count stayed 4 and the first visible row of the
+    terminal moved down by one with EVERY call (counts [1;4;4;4;4], tops [0;1;2;3;4;5]).  Now the count
+    is capped at the height before it is used: counts stay <= 3 and only the draw of `d` below three
+    kept rows scrolls (by one row, like any fourth row on a 3-row screen). *)
 Definition n1_case : syscase :=
   mkcase 5 3 [] None (ITerm None)
     [(Some 10, FAndLeave, [PLit (t "a"); PPos], IHidden); (Some 10, FAndLeave, [PLit (t "b"); PPos], IHidden);
@@ -186,17 +186,17 @@ Definition n1_case : syscase :=
      (14000000000, OInsert BEnd 3); (15000000000, OTick 3); (16000000000, OMClear); (17000000000, OTick 3);
      (18000000000, OMClear); (19000000000, OTick 3)] [].
 
-Theorem C19_bottom_count_exceeds_height_refuted :
+Theorem C19_bottom_count_capped_pre_7d42cff :
   let counts := map (fun k => target_n (ms_target (s_mp (fst (run_sys 5 3 (case_init n1_case)
                                                            (firstn k (c_ops n1_case)))))))
                     [15; 16; 17; 18; 19]%nat in
   let calls := snd (run_sys 5 3 (case_init n1_case) (c_ops n1_case)) in
   let tops := map (fun k => t_top (run_ops 5 3 term_init (List.concat (firstn k calls))))
                   [14; 15; 16; 17; 18; 19]%nat in
-  counts = [1; 4; 4; 4; 4]                       (* last_line_count after ops 15..19: 4 > H = 3 *)
-  /\ tops = [0; 1; 2; 3; 4; 5]%nat.              (* first visible row: one more row scrolled per call *)
+  counts = [1; 3; 3; 3; 3]                       (* last_line_count after ops 15..19: never above H = 3 *)
+  /\ tops = [0; 1; 1; 1; 1; 1]%nat.              (* first visible row: no scrolling after d's first draw *)
 Proof. vm_compute. split; reflexivity. Qed.
-Print Assumptions C19_bottom_count_exceeds_height_refuted.
+Print Assumptions C19_bottom_count_capped_pre_7d42cff.
 
 (** hypotheses are satisfiable by a non-trivial history: a 2x3 terminal, a three-line template
     whose frame (1 + 2 + 1 = 4 rows) is taller than the terminal: only the leading lines are
@@ -258,17 +258,19 @@ Theorem C19_bottom_noshift_is_top : forall (ls : list line) (n : N) (below : boo
 Proof. exact draw_to_term_bottom_noshift. Qed.
 Print Assumptions C19_bottom_noshift_is_top.
 
-(** (c) for Bottom alignment, one draw (every line vector, every previous count n, W, H):
-    n' = rows of the painted Bar lines + the counted padding sh; the Bar rows are at most H, hence
-    n' <= H + sh; the region never grows: n' <= max n (bar rows); sh is 0 or n - full_height > 0;
+(** (c) for Bottom alignment, one draw (every line vector, every previous count n, W, H), after fix
+    7d42cff (the count is capped at the height first: nc = min n H):
+    n' = rows of the painted Bar lines + the counted padding sh, and n' <= H; the Bar rows are at
+    most H; the region never grows: n' <= max nc (bar rows); sh is 0 or nc - full_height > 0;
     the painted lines are the maximal fitting prefix, everything as soon as the Bar lines fit *)
 Theorem C19_draw_rows_bounded_bottom : forall (W H : N) (ls : list line) (n : N) (below : bool),
   let n' := snd (fst (draw_to_term ls n Bottom below W H)) in
   let P := painted ls W H 0 in
-  let sh := bottom_shift ls n W H in
-  n' = bar_rows P W + sh /\ bar_rows P W <= H /\ n' <= H + sh
-  /\ n' <= N.max n (bar_rows P W)
-  /\ (sh = 0 \/ (visual_line_count ls W < n /\ sh = n - visual_line_count ls W))
+  let nc := N.min n H in
+  let sh := bottom_shift ls nc W H in
+  n' = bar_rows P W + sh /\ bar_rows P W <= H /\ n' <= H
+  /\ n' <= N.max nc (bar_rows P W)
+  /\ (sh = 0 \/ (visual_line_count ls W < nc /\ sh = nc - visual_line_count ls W))
   /\ (exists rest, ls = P ++ rest
         /\ match rest with
            | [] => True
@@ -330,18 +332,27 @@ Proof. exact draw_to_term_spec_bottom_full. Qed.
 Print Assumptions C19_bottom_draw_exact.
 
 (** (c) for MultiProgress: along EVERY history of the system model (any bars, members or not, any
-    calls - valid in the sense of MultiSpec.hist_ok or not -, any alignment changes, no I/O failures),
-    after every call the last_line_count of the multi draw target is at most H + the padding rows
-    counted by the last draw_to_term call on it ([hist_shift]: ghost, TermBottomMulti.v); with Top
-    alignment throughout it is at most H: the managed region never exceeds the terminal height *)
+    calls - valid in the sense of MultiSpec.hist_ok or not -, any alignment and any alignment changes,
+    no I/O failures), after every call the last_line_count of the multi draw target is at most H:
+    the managed region never exceeds the terminal height (since fix 7d42cff also under Bottom
+    alignment: no padding ghost any more; before it the bound was false, see
+    C19_bottom_count_capped_pre_7d42cff) *)
 Theorem C19_multi_rows_bounded : forall (W H : N) (s : sys) (ops : list (N * op)),
+  target_n (ms_target (s_mp s)) <= H ->
+  target_n (ms_target (s_mp (MultiSpec.run W H nofail s ops))) <= H.
+Proof. intros W H s ops. exact (multi_rows_le_H W H ops s). Qed.
+Print Assumptions C19_multi_rows_bounded.
+
+(** the older form with the padding ghost [hist_shift] (TermBottomMulti.v) still holds and is kept
+    for the statements that speak about the counted padding *)
+Theorem C19_multi_rows_bounded_ghost : forall (W H : N) (s : sys) (ops : list (N * op)),
   target_n (ms_target (s_mp s)) <= H ->
   let s' := MultiSpec.run W H nofail s ops in
   target_n (ms_target (s_mp s')) <= H + hist_shift W H s ops 0
   /\ (TopAl (s_mp s) -> Forall (fun x => snd x <> OSetAlign Bottom) ops ->
       target_n (ms_target (s_mp s')) <= H).
 Proof. intros W H s ops. exact (multi_rows_bounded_full W H ops s). Qed.
-Print Assumptions C19_multi_rows_bounded.
+Print Assumptions C19_multi_rows_bounded_ghost.
 
 (** the ghost advances call by call by [op_shift] = the fold of [act_shift] over the MultiState
     method calls of the public call (MultiSpec.op_actions, C02_step_calls) *)
